@@ -24,6 +24,7 @@ type Scenario struct {
 	PrefixCut float64    `json:"prefix_cut"` // init=prefix: fraction of the leader's records copied into the follower
 	Unrelated [][]string `json:"unrelated"`  // init=unrelated: commands run on the follower before FOLLOW
 	Steps     []Step     `json:"steps"`
+	NoAOF     bool       `json:"noaof"` // the follower runs with --appendonly no (init empty | unrelated only)
 }
 
 var keys = []string{"fleet", "zone", "k", "k2"}
@@ -128,7 +129,7 @@ func bigCmds(r *rand.Rand, total int, tag string) [][]string {
 // stall-<stage>: drop the replication connections, let the leader acknowledge writes, and hold (or refuse) the
 // follower's reconnect at that stage of the handshake while its caught_up / HEALTHZ answers are sampled
 var stallFaults = []string{"stall-dial", "stall-reject", "stall-server", "stall-md5", "stall-replconf", "stall-aof"}
-var faults = []string{"restart-kill", "restart-term", "killconn", "shrink", "pause", "stall", "leader-restart", "leader-lost-tail"}
+var faults = []string{"restart-kill", "restart-term", "killconn", "shrink", "pause", "stall", "leader-restart", "leader-lost-tail", "offline-shrink"}
 
 func genScenario(r *rand.Rand, i int, large bool) Scenario {
 	sc := Scenario{Name: fmt.Sprintf("gen-%d", i), Large: large}
@@ -155,6 +156,14 @@ func genScenario(r *rand.Rand, i int, large bool) Scenario {
 			sc.PrefixCut = 1
 		}
 		if sc.Init == "unrelated" {
+			sc.Unrelated = append([][]string{{"SET", "stale", "x", "POINT", "1", "1"}}, genCmds(r, 1+r.Intn(12))...)
+		}
+	}
+	if !large && i%5 == 3 {
+		// a follower without a log: nothing of its own survives a start-over, and it starts over on every (re)connect
+		sc.NoAOF = true
+		if sc.Init == "prefix" {
+			sc.Init = "unrelated"
 			sc.Unrelated = append([][]string{{"SET", "stale", "x", "POINT", "1", "1"}}, genCmds(r, 1+r.Intn(12))...)
 		}
 	}
@@ -217,6 +226,27 @@ func corpusScenarios() []Scenario {
 				{Fault: "leader-restart", Writes: [][]string{{"SET", "fleet", "c", "POINT", "4", "4"}}, Stall: 0.5},
 				{Fault: "leader-lost-tail", Writes: [][]string{{"SET", "fleet", "d", "POINT", "5", "5"}, {"DEL", "fleet", "a"}}, Stall: 0.5},
 				{Fault: "leader-lost-tail", Writes: [][]string{{"SET", "fleet", "e", "POINT", "6", "6"}}, Stall: -1}}},
+		// followers without a log (--appendonly no): whatever they hold is not in any log of theirs, so only the reset of
+		// the in-memory dataset at every start-over makes them copies of the leader
+		{Name: "corpus-noaof-unrelated-then-offline-shrink", Init: "unrelated", NoAOF: true,
+			Pre: [][]string{{"SET", "fleet", "a", "FIELD", "speed", "3", "POINT", "2", "2"}, {"SET", "fleet", "b", "POINT", "3", "3"}, {"SET", "zone", "z", "STRING", "v"},
+				{"SETCHAN", "c0", "NEARBY", "fleet", "FENCE", "POINT", "1", "1", "100"}},
+			Unrelated: [][]string{{"SET", "stale", "x", "POINT", "1", "1"}, {"SET", "fleet", "ghost", "POINT", "8", "8"},
+				{"SETCHAN", "oldchan", "NEARBY", "fleet", "FENCE", "POINT", "1", "1", "100"}, {"SETHOOK", "oldhook", "http://127.0.0.1:1/x", "NEARBY", "stale", "FENCE", "POINT", "1", "1", "100"}},
+			Steps: []Step{{Fault: "follow", Stall: 0.5},
+				{Fault: "offline-shrink", Writes: [][]string{{"DEL", "fleet", "a"}, {"DROP", "zone"}, {"DELCHAN", "c0"}, {"SET", "fleet", "c", "POINT", "4", "4"}}, Stall: -1},
+				{Fault: "killconn", Writes: [][]string{{"DEL", "fleet", "b"}}, Stall: 0.5},
+				{Fault: "restart-kill", Writes: [][]string{{"SET", "fleet", "d", "POINT", "5", "5"}}, Stall: -1}}},
+		{Name: "corpus-noaof-empty-all-faults", Init: "empty", NoAOF: true,
+			Pre: [][]string{{"SET", "fleet", "a", "POINT", "2", "2"}, {"SET", "k", "e*", "STRING", "v*1"}},
+			Steps: []Step{{Fault: "follow", Stall: -1},
+				{Fault: "shrink", Writes: [][]string{{"DEL", "fleet", "a"}, {"SET", "fleet", "b", "POINT", "3", "3"}}, Stall: 0.4},
+				{Fault: "stall-server", Writes: [][]string{{"SET", "fleet", "c", "POINT", "4", "4"}}, Stall: -1},
+				{Fault: "pause", Writes: [][]string{{"SET", "fleet", "e", "POINT", "6", "6"}}, Stall: -1}}},
+		{Name: "corpus-offline-shrink-with-log", Init: "empty",
+			Pre: [][]string{{"SET", "fleet", "a", "POINT", "2", "2"}, {"SET", "fleet", "b", "POINT", "3", "3"}, {"SET", "zone", "z", "STRING", "v"}},
+			Steps: []Step{{Fault: "follow", Stall: -1},
+				{Fault: "offline-shrink", Writes: [][]string{{"DEL", "fleet", "a"}, {"DROP", "zone"}}, Stall: 0.5}}},
 		{Name: "corpus-prefix-all-faults", Init: "prefix", PrefixCut: 0.5,
 			Pre: [][]string{{"SET", "fleet", "a", "FIELD", "speed", "3", "POINT", "2", "2"}, {"SET", "fleet", "b", "POINT", "3", "3"}, {"SET", "zone", "z", "STRING", "a*b"},
 				{"DEL", "fleet", "a"}, {"SETCHAN", "c0", "NEARBY", "fleet", "FENCE", "POINT", "1", "1", "100"}, {"RENAME", "zone", "k"}},
